@@ -11,6 +11,7 @@ mod conc;
 mod matrix;
 mod ops;
 mod pats;
+mod schedmode;
 mod seq;
 mod util;
 
@@ -35,7 +36,12 @@ fn main() {
     let summary = match args.positional(0).as_deref() {
         Some("seq") => by_pat!(pat, seq, run, &args),
         Some("conc") => by_pat!(pat, conc, run, &args),
+        Some("sched") => by_pat!(pat, schedmode, run, &args),
         Some("matrix") => by_pat!(pat, matrix, run, &args),
+        Some("defaults") => {
+            let c = util::make_config(&args.get_or("root", "/tmp/c06-defaults"), "c6d_", 1000);
+            by_pat!(pat, pats, defaults_of, &c)
+        }
         Some("conc-child") => {
             by_pat!(pat, conc, child, &args);
             return;
